@@ -88,8 +88,10 @@ static Th gen_thread(const GenOpts &o, int nshared) {
   int np = pickw({5, 3, 2});
   for (int i = 0; i < np; i++) t.priv.push_back(gen_source(o, d.bits.w, d.bits.h, coin(30)));
   int npool = nshared + np;
-  auto idx = [&]() { return coin(70) ? (int)R(0, nshared - 1) : (int)R(0, npool - 1); };
-  auto gen_req = [&] {
+  // (captures by value: rapidcheck keeps the generator and runs it again while shrinking, after this function returned)
+  int dw = d.bits.w, dh = d.bits.h;
+  auto gen_req = [nshared, npool, dw, dh] {
+    auto idx = [nshared, npool]() { return coin(70) ? (int)R(0, nshared - 1) : (int)R(0, npool - 1); };
     Req r;
     r.kind = pickw({10, 4, 1, 2, 2, 1, 2});
     r.src = idx();
@@ -101,8 +103,8 @@ static Th gen_thread(const GenOpts &o, int nshared) {
     r.my = (int)R(-1, 3);
     r.dx = (int)R(-2, 4);
     r.dy = (int)R(-1, 2);
-    r.w = (int)R(1, d.bits.w + 3);
-    r.h = (int)R(1, d.bits.h + 1);
+    r.w = (int)R(1, dw + 3);
+    r.h = (int)R(1, dh + 1);
     r.n = (int)R(1, 8);
     r.seed = seed64();
     return r;
@@ -367,10 +369,11 @@ static std::string run_program(const TCase &c, const Th &tin, Pool &pool) {
   return out + buf;
 }
 
+static bool g_cold = false;  // cold-start variant: no shared images (their first use would happen on the main thread)
 static Verdict run_case(const TCase &cin) {
   Verdict v;
   TCase c = cin;
-  if (c.th.empty() || c.shared.empty()) return v;
+  if (c.th.empty() || (c.shared.empty() && !g_cold)) return v;
   if (c.th.size() > 16) c.th.resize(16);
   Pool pool;
   for (auto s : c.shared) {
@@ -455,5 +458,48 @@ static Verdict run_case(const TCase &cin) {
   return v;
 }
 
-static void register_props() { add_prop<TCase>("threads", gen_case, run_case); }
+// ---------------------------------------------------------------- cold start
+// The first drawing calls of a process are made by several threads at once.  Whatever the library sets up on first use
+// process-wide (the implementation chain, CPU detection) must already exist or be created safely.  Each case runs in a
+// forked child of a parent that never draws, so every case sees a cold library; the child exits non-zero on a digest
+// mismatch, and ThreadSanitizer makes it exit non-zero on a race.
+static TCase gen_cold() {
+  TCase c = gen_case();
+  c.shared.clear();
+  int nt = (int)c.th.size();
+  for (int i = 0; i < nt; i++) {
+    Th &t = c.th[(size_t)i];
+    if (t.priv.empty()) {
+      GenOpts o;
+      o.accessors = false;
+      t.priv.push_back(gen_source(o, t.dst.bits.w, t.dst.bits.h, false));
+    }
+  }
+  return c;
+}
+static Verdict run_cold(const TCase &c) {
+  Verdict v;
+  fflush(stdout);
+  fflush(stderr);
+  pid_t pid = fork();
+  if (pid == 0) {
+    g_cold = true;
+    Verdict r = run_case(c);
+    if (!r.ok) fprintf(stderr, "[cold child] %s\n", r.msg.c_str());
+    _exit(r.ok ? 0 : 1);
+  }
+  int st = 0;
+  waitpid(pid, &st, 0);
+  if (!WIFEXITED(st) || WEXITSTATUS(st) != 0)
+    v.fail(fmt("first drawing calls of a process issued by %d threads at once: child %s %d (1 = a thread's result differs from the single-threaded one, 78 = ThreadSanitizer report)", (int)c.th.size(),
+               WIFEXITED(st) ? "exited with" : "killed by signal", WIFEXITED(st) ? WEXITSTATUS(st) : WTERMSIG(st)));
+  v.nontrivial = c.th.size() >= 2;
+  v.label(fmt("threads_%d", (int)c.th.size()));
+  return v;
+}
+
+static void register_props() {
+  add_prop<TCase>("threads", gen_case, run_case);
+  add_prop<TCase>("coldstart", gen_cold, run_cold);
+}
 VF_MAIN()
